@@ -153,7 +153,8 @@ SetAll(v, rows, gob) == IF rows = {} THEN v
 Full(gob) == {Case("full", g, "*", "full", SetAll(BaseV(g, 4), OwnRows(g), gob)) : g \in GoTypes}
 
 \* top-level values that are not objects
-TopLevel == { Case("top", "IRI", "top", "iri", I1), Case("top", "ItemCollection", "top", "list-mixed", ListOf(<<I1, Note1, Person1>>)),
+TopLevel == { Case("top", "IRI", "top", "iri", I1), Case("top", "IRI", "top", "iri-ampersand", Iri(Base \o "search?a=1&b=2")),
+              Case("top", "IRI", "top", "iri-quoted", Iri(Base \o "a\"b\\c")), Case("top", "IRI", "top", "iri-fragment", Iri("https://example.com#me")), Case("top", "ItemCollection", "top", "list-mixed", ListOf(<<I1, Note1, Person1>>)),
               Case("top", "ItemCollection", "top", "list2-iri", ListOf(<<I1, I2>>)),
               Case("top", "IRIs", "top", "iris2", [k |-> "iris", e |-> <<I1.iri, I2.iri>>]) }
 =============================================================================
